@@ -21,6 +21,56 @@ fn decode(blob: &[u8]) -> Value {
     }
 }
 
+/// The bytes both file formats store for the Attributes property of sibling instances carrying `maps`, next to the
+/// bytes Attributes::to_writer gives for each map.
+fn stored_blobs(maps: &[Attributes]) -> Value {
+    use rbx_dom_weak::types::Variant;
+    use rbx_dom_weak::{InstanceBuilder, WeakDom};
+    let mut dom = WeakDom::new(InstanceBuilder::new("DataModel"));
+    let root = dom.root_ref();
+    let mut roots = Vec::new();
+    let mut expected = Vec::new();
+    for (k, m) in maps.iter().enumerate() {
+        roots.push(dom.insert(root, InstanceBuilder::new("Folder").with_name(format!("F{}", k)).with_property("Attributes", Variant::Attributes(m.clone()))));
+        let mut buf = Vec::new();
+        if m.to_writer(&mut buf).is_err() {
+            return json!({"skipped": "a sibling map cannot be encoded"});
+        }
+        expected.push(bytes(&buf));
+    }
+    let raw = |back: Result<WeakDom, String>| -> Value {
+        match back {
+            Ok(d) => Value::Array(
+                d.root()
+                    .children()
+                    .iter()
+                    .map(|r| {
+                        let inst = d.get_by_ref(*r).unwrap();
+                        let vals: Vec<&Variant> = inst.properties.iter().filter(|(k, _)| k.as_str() == "AttributesSerialize" || k.as_str() == "Attributes").map(|(_, v)| v).collect();
+                        match vals.as_slice() {
+                            [] => bytes(&[]),
+                            [Variant::BinaryString(b)] => bytes(b.as_ref()),
+                            _ => json!("not-a-raw-string"),
+                        }
+                    })
+                    .collect(),
+            ),
+            Err(e) => json!({"failed": e}),
+        }
+    };
+    let nodb = rbx_reflection::ReflectionDatabase::new();
+    let mut bin = Vec::new();
+    let bin_back = match catch_unwind(AssertUnwindSafe(|| rbx_binary::to_writer(&mut bin, &dom, &roots))) {
+        Ok(Ok(())) => catch_unwind(AssertUnwindSafe(|| rbx_binary::Deserializer::new().reflection_database(&nodb).deserialize(&bin[..])))
+            .map_err(|p| format!("panic:{}", panic_msg(p)))
+            .and_then(|r| r.map_err(|e| format!("err:{}", e))),
+        Ok(Err(e)) => Err(format!("write-err:{}", e)),
+        Err(p) => Err(format!("write-panic:{}", panic_msg(p))),
+    };
+    let xml_back = crate::xmlcase::write_xml(&dom, &roots, "IgnoreUnknown").and_then(|d| crate::xmlcase::read_xml(&d, "NoReflection"));
+    json!({"expected": expected, "bin": raw(bin_back), "xml": raw(xml_back)})
+}
+
 pub fn run_random(seed: u64, count: usize, out: &mut dyn Write) {
     std::panic::set_hook(Box::new(|_| {}));
     let mut rng = StdRng::seed_from_u64(seed);
@@ -42,6 +92,12 @@ pub fn run_random(seed: u64, count: usize, out: &mut dyn Write) {
                 ev["write"] = json!("panic");
                 ev["detail"] = json!(panic_msg(p));
             }
+        }
+        // "the same blob is what both file formats store for the Attributes property": every fourth case the map sits
+        // on the first of three sibling instances of one class (the others carry maps of their own); the stored bytes
+        // are recovered by reading the files without the database (the property then comes back as the raw string)
+        if i % 4 == 1 && ev["write"] == "ok" {
+            ev["files"] = stored_blobs(&[a.clone(), gen::attributes_any(&mut rng), gen::attributes_any(&mut rng)]);
         }
         serde_json::to_writer(&mut *out, &ev).unwrap();
         out.write_all(b"\n").unwrap();
